@@ -64,6 +64,7 @@ func RunOne(p Profile, verifSeed uint64, i int, opt Options) *RunResult {
 	g.RunChaos()
 	if c.viol == nil {
 		if c.vg != nil {
+			res.HealAt = len(c.trace)
 			if !RunFollowerClose(c) && c.viol == nil && os.Getenv("VERIF_CLOSEDEBUG") != "" {
 				res.Final = "close did not catch up\n" + c.CloseDebug()
 			}
@@ -115,6 +116,11 @@ func Replay(rc RunConfig, actions []Action, opt Options) *RunResult {
 		if a.K == AHealPhase && i == len(actions)-1 {
 			res.HealAt = i
 			res.Heal = RunHeal(c, Mix(rc.Seed, 0x4ea1))
+			break
+		}
+		if a.K == AVClosePhase && i == len(actions)-1 {
+			res.HealAt = i
+			RunFollowerClose(c)
 			break
 		}
 		c.Do(a)
